@@ -244,4 +244,122 @@ theorem sumOver_le_sumOver [Field K] [LinearOrder K] [IsStrictOrderedRing K] (l 
 
 end Norms
 
+/-! ### products over index fibres (Fubini for `prod`) and full contractions -/
+section ProdFubini
+variable {K : Type} {α β : Type}
+
+theorem prodOver_append [Monoid K] (l₁ l₂ : List α) (f : α → K) :
+    prodOver (l₁ ++ l₂) f = prodOver l₁ f * prodOver l₂ f := by
+  induction l₁ with
+  | nil => simp [prodOver]
+  | cons a t ih => simp only [List.cons_append, prodOver, ih, mul_assoc]
+
+theorem prodOver_flatMap [Monoid K] (l : List β) (g : β → List α) (f : α → K) :
+    prodOver (l.flatMap g) f = prodOver l (fun b => prodOver (g b) f) := by
+  induction l with
+  | nil => rfl
+  | cons a t ih => simp only [List.flatMap_cons, prodOver_append, prodOver, ih]
+
+theorem prodOver_one [Monoid K] (l : List α) : prodOver l (fun _ => (1 : K)) = 1 := by
+  induction l with
+  | nil => rfl
+  | cons a t ih => simp only [prodOver, ih, mul_one]
+
+theorem prodOver_comm [CommMonoid K] (l₁ : List α) (l₂ : List β) (f : α → β → K) :
+    prodOver l₁ (fun a => prodOver l₂ (fun b => f a b)) = prodOver l₂ (fun b => prodOver l₁ (fun a => f a b)) := by
+  induction l₁ with
+  | nil => simp [prodOver, prodOver_one]
+  | cons a t ih => simp only [prodOver, ih, prodOver_mul]
+
+theorem prodOver_allIdx_cons [CommMonoid K] (n : Nat) (ns : List Nat) (f : Idx → K) :
+    prodOver (allIdx (n :: ns)) f = prodOver (List.range n) (fun i => prodOver (allIdx ns) (fun t => f (i :: t))) := by
+  simp only [allIdx, prodOver_flatMap, prodOver_map]
+
+theorem contractProd_total [CommMonoid K] :
+    ∀ (mask : List Bool) (sizes : List Nat) (x : Idx → K), mask.length = sizes.length →
+      prodOver (allIdx (sel false mask sizes)) (fun o => contractProd mask sizes x o) = prodOver (allIdx sizes) x := by
+  intro mask
+  induction mask with
+  | nil =>
+    intro sizes x h
+    have : sizes = [] := by cases sizes with | nil => rfl | cons a t => simp at h
+    subst this
+    simp [sel, contractProd, allIdx, prodOver, merge]
+  | cons b m ih =>
+    intro sizes x h
+    cases sizes with
+    | nil => simp at h
+    | cons n ns =>
+      have hlen : m.length = ns.length := by simpa using h
+      cases b with
+      | true =>
+        have e1 : sel false (true :: m) (n :: ns) = sel false m ns := by simp [sel]
+        have e2 : sel true (true :: m) (n :: ns) = n :: sel true m ns := by simp [sel]
+        have step : ∀ o, contractProd (true :: m) (n :: ns) x o
+            = prodOver (List.range n) (fun i => contractProd m ns (fun t => x (i :: t)) o) := by
+          intro o
+          simp only [contractProd, e2, prodOver_allIdx_cons, merge, List.headD_cons, List.tail_cons]
+        rw [e1, prodOver_allIdx_cons]
+        simp only [step]
+        rw [prodOver_comm]
+        apply prodOver_congr
+        intro i _
+        exact ih ns (fun t => x (i :: t)) hlen
+      | false =>
+        have e1 : sel false (false :: m) (n :: ns) = n :: sel false m ns := by simp [sel]
+        have e2 : sel true (false :: m) (n :: ns) = sel true m ns := by simp [sel]
+        have step : ∀ i o, contractProd (false :: m) (n :: ns) x (i :: o) = contractProd m ns (fun t => x (i :: t)) o := by
+          intro i o
+          simp only [contractProd, e2, merge, List.headD_cons, List.tail_cons]
+        rw [e1, prodOver_allIdx_cons, prodOver_allIdx_cons]
+        apply prodOver_congr
+        intro i _
+        simp only [step]
+        exact ih ns (fun t => x (i :: t)) hlen
+
+/-- with every sub-domain listed the mask is all-true -/
+theorem maskOf_range (n : Nat) : maskOf n (List.range n) = List.replicate n true := by
+  simp only [maskOf]
+  rw [List.eq_replicate_iff]
+  refine ⟨by simp, fun b hb => ?_⟩
+  simp only [List.mem_map, List.mem_range] at hb
+  obtain ⟨i, hi, rfl⟩ := hb
+  simpa using hi
+
+theorem sel_true_replicate : ∀ (xs : List α), sel true (List.replicate xs.length true) xs = xs := by
+  intro xs
+  induction xs with
+  | nil => simp [sel]
+  | cons a t ih => simp [List.replicate_succ, sel, ih]
+
+theorem mem_allIdx_length : ∀ (ns : List Nat) (c : Idx), c ∈ allIdx ns → c.length = ns.length := by
+  intro ns
+  induction ns with
+  | nil => intro c h; simp [allIdx] at h; simp [h]
+  | cons n t ih =>
+    intro c h
+    simp only [allIdx, List.mem_flatMap, List.mem_map, List.mem_range] at h
+    obtain ⟨i, _, c', hc', rfl⟩ := h
+    simp [ih c' hc']
+
+theorem merge_replicate_true : ∀ (k : Nat) (o c : Idx), c.length = k → merge (List.replicate k true) o c = c := by
+  intro k
+  induction k with
+  | zero => intro o c h; simp at h; simp [merge, h]
+  | succ k ih =>
+    intro o c h
+    cases c with
+    | nil => simp at h
+    | cons a t => simp [List.replicate_succ, merge, ih o t (by simpa using h)]
+
+/-- contracting every sub-domain is the sum over all indices, whatever the (irrelevant) output index -/
+theorem contract_all [AddCommMonoid K] (sizes : List Nat) (x : Idx → K) (o : Idx) :
+    contract (List.replicate sizes.length true) sizes x o = sumOver (allIdx sizes) x := by
+  simp only [contract, sel_true_replicate]
+  apply sumOver_congr
+  intro c hc
+  rw [merge_replicate_true _ o c (mem_allIdx_length sizes c hc)]
+
+end ProdFubini
+
 end NiftyVerif.FieldM
